@@ -4,7 +4,7 @@
 set -u
 export GOFLAGS=-mod=mod GOPROXY=off GOSUMDB=off GOTOOLCHAIN=local
 name=$1; shift
-EV=/tmp/evalrepo_$name
+EV=/tmp/evalrepo_${name}_$$
 git -C /repo worktree add -q --detach $EV HEAD && git -C $EV apply /verif/seeded/$name/patch.diff || { echo "patch does not apply"; git -C /repo worktree remove --force $EV; exit 2; }
 cd /verif
 if [ "$1" = "-h" ]; then
